@@ -686,7 +686,7 @@ pub fn run(args: &Args, rep: &mut Report) {
                 incremental assembly with interleaved bad adds, and every single-field corruption of a valid certificate; \
                 distinct = distinct (case, object, corruption) triples"
         .into();
-    let ncases: u64 = args.pick(30, 1500);
+    let ncases: u64 = args.extra_u64("cases").unwrap_or(args.pick(30, 1500));
     let mut pool_rng = rng_for(args.seed, args.shard, 40, 0);
     let pool = crate::gen::keys(&mut pool_rng, 11);
     let only: Option<u64> = args.replay.as_ref().map(|p| {
